@@ -112,13 +112,21 @@ def gf_mul(a, b):
     return r
 
 
-_INV = [0] * 256
-for _a in range(1, 256):
-    for _b in range(1, 256):
-        if gf_mul(_a, _b) == 1:
-            _INV[_a] = _b
-            break
-_MUL = [bytes(gf_mul(a, b) for b in range(256)) for a in range(256)]  # _MUL[a][b] = a*b
+def _mul_row(a):
+    """a*b for all b by GF(2)-linearity in b (a*x^i by repeated doubling); checked against gf_mul in selftest()"""
+    row = bytearray(256)
+    v = a
+    for i in range(8):
+        for b in range(1 << i, 2 << i):
+            row[b] = row[b ^ (1 << i)] ^ v
+        v <<= 1
+        if v & 0x100:
+            v ^= 0x11B
+    return bytes(row)
+
+
+_MUL = [_mul_row(a) for a in range(256)]  # _MUL[a][b] = a*b
+_INV = [0] + [_MUL[a].index(1) for a in range(1, 256)]
 
 
 def gf_div(a, b):
@@ -527,6 +535,7 @@ def selftest():
     assert hashlib.sha256(" ".join(WORDS).encode()).hexdigest() == "b19efd8b03b0b388c8ffd0dbff50b468b3daeb454666bebbe20d5cc9006a3620"
     # GF(256): field axioms, exhaustively on the multiplication table
     for a in range(256):
+        assert _MUL[a] == bytes(gf_mul(a, b) for b in range(256))  # table == carry-less multiplication
         assert _MUL[a][0] == 0 and _MUL[a][1] == a and _MUL[0][a] == 0
         assert all(_MUL[a][b] == _MUL[b][a] for b in range(256))
         if a:
